@@ -189,6 +189,17 @@ class H:
         shape = AND(lo.tag == 0, hi.tag == 1)
         return AND(shape, is_variant(r, 'Some'))
 
+    def boundset_construction_sites(self):
+        """bodies that build a `BoundSet { .. }` aggregate (RI argument, DESIGN.md 3.5 (a)): expected `new` and the derived `clone`"""
+        sites = []
+        for nm, bl in self.eng.bodies.items():
+            for b in bl:
+                for blk in b.blocks.values():
+                    for st in blk.stmts:
+                        if st[0] == 'assign' and st[2][0] == 'adt_named' and st[2][1].split('::')[-1] == 'BoundSet':
+                            sites.append(nm)
+        return sorted(set(sites))
+
     # ---------------------------------------------------------------- decoding models
     def ev(self, m, t):
         return m.eval(t, model_completion=True)
